@@ -173,6 +173,12 @@ def run(ck):
         n += process_entry(ck, repo, func, independent)
     n += curve_entry(ck, repo, independent)
     ck.floor("entry-point configurations compared", n, 60)
+    from ..purity import purity
+    names = ["get_partial_pressures", "Pervaporation.get_partial_fluxes_from_permeate_composition", "Pervaporation.calculate_partial_fluxes",
+             "Pervaporation.calculate_permeate_composition", "Pervaporation.calculate_separation_factor", "Pervaporation.ideal_diffusion_curve",
+             "Pervaporation.non_ideal_diffusion_curve", "DiffusionCurve.__attrs_post_init__", "DiffusionCurve.get_separation_factor",
+             "Measurements.from_diffusion_curve_first", "Measurements.from_diffusion_curve_second", "Composition.to_weight", "Composition.to_molar"]
+    purity(ck, repo, [repo.find_function(x) for x in names] + process_functions(repo))
     ck.exhaustive = True
     ck.assume("Composition.to_molar / to_weight are mutually inverse (C15) and the activity model converts its input (C04-A1)")
 
@@ -228,7 +234,7 @@ def process_entry(ck, repo, func, independent):
         for o in outs:
             if is_admissibility_exit(o) or o.kind != "return":
                 continue
-            key = (meta["mode"], meta["programme"], meta["initial_permeances"], trace_sig(o))
+            key = (meta["mode"], meta["programme"], meta["initial_permeances"], meta.get("units"), trace_sig(o))
             groups.setdefault(key, {})[meta["basis"]] = (label, PM(repo, func, label, meta, o))
     n = 0
     from ..procmodel import param_of_type
